@@ -1,3 +1,4 @@
+import BtcProofs.Lemmas.Placement
 import BtcModel.Wallet.Multisig
 import BtcProofs.Properties.C02
 /-!
@@ -223,5 +224,51 @@ theorem fewer_signers_invalid (m n : Nat) (order : List Nat) (hm : 1 ≤ m) (hr 
 example : signedBy [2, 0, 2] = [0, 2] := by decide
 example : inputVerify 2 3 (signedBy [2, 0, 2]).length (okOf [2, 0, 2]) = true := by decide
 example : inputVerify 2 3 (signedBy [1, 1]).length (okOf [1, 1]) = false := by decide
+
+/-- T6 (placement, repair F100): the signatures `Transaction.sign` stores - the new ones at the slots
+of their keys, every known one at the slot of the key it verifies under, whether or not it still
+carried that key - are the cosigners that signed, each once, in key order: exactly the list
+`signedBy` that T3-T5 are about, for any number of known signatures, with or without their keys. -/
+theorem placeAll_eq_signedBy (n : Nat) (new known : List Nat) (h1 : ∀ p ∈ new, p < n) (h2 : ∀ p ∈ known, p < n) :
+    placeAll n new known = signedBy (new ++ known) := by
+  unfold placeAll
+  have a := foldl_putNew new (List.replicate n none) (slotsOk_replicate n) (by simpa using h1)
+  have b := foldl_putKnown known _ a.1 (by rw [a.2.1]; simpa using h2)
+  have hok : OkFrom 0 (known.foldl putKnown (new.foldl putNew (List.replicate n none))) := by
+    intro j hj
+    have := b.1 j hj
+    simpa using this
+  have c := filterMap_okFrom _ 0 hok
+  obtain ⟨hinc, hmem⟩ := signedBy_spec (new ++ known)
+  apply inc_ext _ _ c.1 hinc
+  intro x
+  rw [c.2 x, hmem x, List.mem_append]
+  simp only [Nat.zero_le, true_and, Nat.sub_zero]
+  rw [b.2.2 x, a.2.2 x]
+  constructor
+  · rintro (h | h | h)
+    · exact Or.inr h
+    · exact Or.inl h
+    · exfalso
+      by_cases hx : x < n
+      · simp [hx] at h
+      · have hn : (List.replicate n (none : Option Nat))[x]? = none :=
+          List.getElem?_eq_none (by simp; omega)
+        rw [hn] at h
+        cases h
+  · rintro (h | h)
+    · exact Or.inr (Or.inl h)
+    · exact Or.inl h
+
+/-- the figures of F100: 2-of-5, the cosigners at positions 3, 0 and 1 have signed and the one at
+position 2 signs now - four signatures, one per signer, in key order -/
+example : placeAll 5 [2] [0, 1, 3] = [0, 1, 2, 3] := by decide
+
+
+/-- ... whereas the loops before the repair, with one known signature that came without its key (the
+cosigner at position 3), filled the free slots with the known signatures from the start again: the
+signatures of positions 0 and 1 twice, the one of position 3 lost. -/
+theorem pinned_placement_duplicates :
+    placePinned 5 [2] [(0, true), (1, true), (3, false)] = [0, 1, 2, 0, 1] := by decide
 
 end Btc.C10
